@@ -406,7 +406,7 @@ def run(ctx: core.Ctx):
         "the equi-join / filter split of a rule is sqlglot's (join_condition); the harness assumes top-level conjuncts that are l/r column or substr equalities are the equi keys and checks the reported counts against that",
         "pairs are oriented by composite-id order; 70% of the cases carry an explicit source_dataset column, 30% leave the dataset names to Splink (argument order must then decide the orientation, as it does in predict())",
     ]
-    errs = tarith.write()
+    errs = tarith.write({"calculate_cartesian"})
     ctx.lean = core.lean_check(PROP, ctx.thorough)
     if errs:
         ctx.lean.ok = False
